@@ -103,7 +103,16 @@ def fuse_cases(draw, ferm=None):
                                 if draw(st.booleans()) else None))
     else:
         groups = draw(groupings(nd))
-    return {"x": spec, "prefuse": pre, "groups": groups}
+    case = {"x": spec, "prefuse": pre, "groups": groups}
+    if pre is not None:
+        # a sibling over the same indices with another sparsity pattern: its
+        # pre-fused index has the same sizes but (often) other sub-sectors,
+        # and it is fused right after x, through whatever x left in the cache
+        secs = gen.spec_valid_sectors(spec["symm"], spec["idxs"],
+                                      spec["charge"])
+        if len(secs) > 1:
+            case["sibling"] = draw(gen.sector_subset(secs, mode="sparse"))
+    return case
 
 
 def expected_layout(ndim, groups):
@@ -278,6 +287,16 @@ def law_fuse(ch):
         e2 = {k: np.conj(v) for k, v in D.elements(y).items()}
         require(e1 == e2, "conj-of-fused:elements",
                 "conj then full unfuse moved or changed elements")
+    sib = case.get("sibling")
+    if case["prefuse"] and sib and sorted(map(tuple, sib)) != sorted(
+            map(tuple, spec["sectors"])):
+        spec_s = dict(spec, sectors=list(sib))
+        if ferm:
+            spec_s["phases"] = None
+        xs = must(gen.build(spec_s).fuse, tuple(case["prefuse"]),
+                  what="prefuse(sibling)")
+        ch.label("pre-fused-sibling")
+        check_fuse(ch, xs, groups, ferm)
     for lab in gen.spec_summary(spec):
         ch.label(lab)
     big = any(len(g) >= 2 for g in groups)
